@@ -191,6 +191,13 @@ func (r *Run) Finish() {
 		}
 		return sigs[i] < sigs[j]
 	})
+	if f := os.Getenv("VERIF_DUMP_SIGS"); f != "" {
+		var sb strings.Builder
+		for _, s := range sigs {
+			fmt.Fprintf(&sb, "%s\t%d\n", s, r.violCount[s])
+		}
+		os.WriteFile(f, []byte(sb.String()), 0o644)
+	}
 	newV := 0
 	knownSeen := 0
 	var lines []string
